@@ -2,7 +2,7 @@
 //! REF iff-oracle for `verify_identity` and for the helper-built issuer's `is_claim_valid`, over
 //! registries produced by edit histories and claims carrying REAL signatures of all three schemes.
 use crate::args;
-use crate::contracts::identity::{CtiC, IdentityC, IrsC, IssuerC, VerifierC, ED25519, SECP256K1, SECP256R1};
+use crate::contracts::identity::{CtiC, IdentityC, IrsC, IssuerC, ScriptIssuer, VerifierC, ED25519, SECP256K1, SECP256R1};
 use crate::report::Report;
 use crate::rng::Rng;
 use crate::world::{invoke, tag, Fail, World};
@@ -116,7 +116,14 @@ pub fn history(cfg: &Cfg, rep: &mut Report, h: u64, steps: usize, e2e: bool) {
     let irs = e.register(IrsC, ());
     let verifier = e.register(VerifierC, (cti.clone(), irs.clone()));
     let ni = 3;
-    let issuers: Vec<Address> = (0..ni).map(|_| e.register(IssuerC, ())).collect();
+    let mut issuers: Vec<Address> = (0..ni).map(|_| e.register(IssuerC, ())).collect();
+    // issuer #3 is scripted (not built from the helpers): confirms, fails, or *returns* false
+    const SI: usize = 3;
+    issuers.push(e.register(ScriptIssuer, ()));
+    let issuers = issuers;
+    let mut script_mode: u32 = 0;
+    // the registry as the edit history implies it: topic -> trusted issuers
+    let mut mreg: BTreeMap<u32, BTreeSet<usize>> = BTreeMap::new();
     let keys: Vec<Vec<Key>> = (0..ni).map(|_| SCHEMES.iter().map(|s| Key::new(&mut rng, *s)).collect()).collect();
     let nid = 3;
     let identities: Vec<Address> = (0..nid).map(|_| e.register(IdentityC, ())).collect();
@@ -155,6 +162,9 @@ pub fn history(cfg: &Cfg, rep: &mut Report, h: u64, steps: usize, e2e: bool) {
         let t123: SVec<u32> = SVec::from_array(e, [1u32, 2, 3]);
         invoke::<()>(e, &cti, "add_trusted_issuer", args!(e, issuers[0], t123)).unwrap();
         invoke::<()>(e, &cti, "add_trusted_issuer", args!(e, issuers[1], t12)).unwrap();
+        mreg.insert(1, [0usize, 1].into_iter().collect());
+        mreg.insert(2, [0usize, 1].into_iter().collect());
+        mreg.insert(3, [0usize].into_iter().collect());
         for (ii, ts_) in [(0usize, vec![1u32, 2, 3]), (1usize, vec![1u32, 2])] {
             for t in ts_ {
                 for ki in 0..3 {
@@ -184,12 +194,20 @@ pub fn history(cfg: &Cfg, rep: &mut Report, h: u64, steps: usize, e2e: bool) {
             forced_key = Some(k2);
         }
         let reg = registry(&w);
+        // registry edits also concern the scripted issuer
+        let ri = if rng.chance(1, 4) { SI } else { ii };
         if k < 8 {
             let r: Result<(), Fail> = invoke(e, &cti, "add_claim_topic", args!(e, t));
             rep.op(format!("#{step} cti.add_claim_topic({t}) -> {}", tag(&r)));
+            if r.is_ok() {
+                mreg.insert(t, BTreeSet::new());
+            }
         } else if k < 11 {
             let r: Result<(), Fail> = invoke(e, &cti, "remove_claim_topic", args!(e, t));
             rep.op(format!("#{step} cti.remove_claim_topic({t}) -> {}", tag(&r)));
+            if r.is_ok() {
+                mreg.remove(&t);
+            }
         } else if k < 21 {
             let mut tv: SVec<u32> = SVec::new(e);
             for x in reg.keys() {
@@ -198,11 +216,43 @@ pub fn history(cfg: &Cfg, rep: &mut Report, h: u64, steps: usize, e2e: bool) {
                 }
             }
             let f = if rng.chance(2, 3) { "add_trusted_issuer" } else { "update_issuer_claim_topics" };
-            let r: Result<(), Fail> = invoke(e, &cti, f, args!(e, issuers[ii], tv.clone()));
-            rep.op(format!("#{step} cti.{f}(I{ii}, {tv:?}) -> {}", tag(&r)));
+            let r: Result<(), Fail> = invoke(e, &cti, f, args!(e, issuers[ri], tv.clone()));
+            rep.op(format!("#{step} cti.{f}(I{ri}, {tv:?}) -> {}", tag(&r)));
+            if r.is_ok() {
+                if f == "update_issuer_claim_topics" {
+                    for is in mreg.values_mut() {
+                        is.remove(&ri);
+                    }
+                }
+                for x in tv.iter() {
+                    mreg.entry(x).or_default().insert(ri);
+                }
+            }
         } else if k < 24 {
-            let r: Result<(), Fail> = invoke(e, &cti, "remove_trusted_issuer", args!(e, issuers[ii]));
-            rep.op(format!("#{step} cti.remove_trusted_issuer(I{ii}) -> {}", tag(&r)));
+            let r: Result<(), Fail> = invoke(e, &cti, "remove_trusted_issuer", args!(e, issuers[ri]));
+            rep.op(format!("#{step} cti.remove_trusted_issuer(I{ri}) -> {}", tag(&r)));
+            if r.is_ok() {
+                for is in mreg.values_mut() {
+                    is.remove(&ri);
+                }
+            }
+        } else if k < 27 {
+            // the scripted issuer changes its mind
+            script_mode = rng.below(3) as u32;
+            invoke::<()>(e, &issuers[SI], "set_mode", args!(e, script_mode)).expect("set_mode");
+            rep.op(format!("#{step} scripted issuer I{SI} now {}", ["confirms", "rejects by failing", "rejects by returning false"][script_mode as usize]));
+        } else if k < 30 {
+            // a claim issued by the scripted issuer: stored iff it confirms at this moment
+            let data: [u8; 8] = rng.bytes();
+            let sig: [u8; 64] = rng.bytes();
+            let r: Result<BytesN<32>, Fail> = invoke(e, &identities[idi], "add_claim", args!(e, t, ED25519, issuers[SI], Bytes::from_slice(e, &sig), Bytes::from_slice(e, &data), SString::from_str(e, "u")));
+            rep.evaluations += 1;
+            rep.op(format!("#{step} ID{idi}.add_claim(topic {t}, scripted issuer I{SI} in mode {script_mode}) -> {}", tag(&r)));
+            rep.case(format!("add_claim/scripted-issuer/mode={script_mode}/{}", tag(&r)));
+            rep.check("claim", r.is_ok() == (script_mode == 0), "C15/claim/add_claim/scripted-issuer/outcome", || format!("add_claim with the scripted issuer in mode {script_mode} (0 confirms, 1 fails, 2 returns false): {r:?}"));
+            if r.is_ok() {
+                held.insert((idi, SI, t), ClaimRec { key: 0, nonce: 0, valid_until: u64::MAX, data: data.to_vec() });
+            }
         } else if k < 40 {
             // allow a key for a topic the issuer is trusted for (allow_key itself checks that)
             let ki = rng.idx(3);
@@ -237,6 +287,9 @@ pub fn history(cfg: &Cfg, rep: &mut Report, h: u64, steps: usize, e2e: bool) {
                 continue;
             }
             let ((id2, i2, t2), rec) = *rng.pick(&cand);
+            if *i2 == SI {
+                continue;
+            }
             let rv = rng.chance(3, 4);
             let r: Result<(), Fail> = invoke(e, &issuers[*i2], "set_revoked", args!(e, identities[*id2], *t2, Bytes::from_slice(e, &rec.data), rv));
             rep.op(format!("#{step} I{i2}.set_revoked(ID{id2}, topic {t2}, {rv}) -> {}", tag(&r)));
@@ -343,12 +396,26 @@ pub fn history(cfg: &Cfg, rep: &mut Report, h: u64, steps: usize, e2e: bool) {
             }
         }
         // ---------------- oracle: issuer validity of every held claim, then verify_identity ----------------
-        let reg = registry(&w);
+        // "currently trusted" comes from the edit history, not from the registry's own answer; the two
+        // are compared as well (a registry that forgets a removal would otherwise vouch for itself)
+        let reg_reported = registry(&w);
+        let reg: BTreeMap<u32, Vec<usize>> = mreg.iter().map(|(t, is)| (*t, is.iter().cloned().collect())).collect();
+        {
+            let norm = |m: &BTreeMap<u32, Vec<usize>>| -> BTreeMap<u32, BTreeSet<usize>> { m.iter().map(|(t, v)| (*t, v.iter().cloned().collect())).collect() };
+            let (a, b) = (norm(&reg_reported), norm(&reg));
+            rep.check("registry", a == b, "C15/registry/trusted-issuers-differ-from-edit-history", || format!("at step {step}: the registry reports topic -> issuers {a:?}, the edits so far imply {b:?}"));
+        }
         let valid_now = |idx: usize, is: usize, tp: u32, rec: &ClaimRec| -> bool {
+            if is == SI {
+                return script_mode == 0;
+            }
             allowed.contains(&(is, rec.key, tp)) && *nonce.get(&(is, idx, tp)).unwrap_or(&0) == rec.nonce && ts < rec.valid_until && !revoked.contains(&(is, idx, tp, rec.data.clone()))
         };
         if step % 3 == 0 {
             for ((idx, is, tp), rec) in held.iter() {
+                if *is == SI {
+                    continue;
+                }
                 let key = &keys[*is][rec.key];
                 let msg = claim_message(e, &issuers[*is], &identities[*idx], *tp, rec.nonce, &rec.data);
                 let sig = key.sign(&msg);
@@ -372,7 +439,7 @@ pub fn history(cfg: &Cfg, rep: &mut Report, h: u64, steps: usize, e2e: bool) {
                 why = "no-identity".into();
             } else {
                 for (tp, is) in reg.iter() {
-                    let ok = is.iter().any(|i| *i < ni && held.get(&(a, *i, *tp)).map_or(false, |rec| valid_now(a, *i, *tp, rec)));
+                    let ok = is.iter().any(|i| *i < issuers.len() && held.get(&(a, *i, *tp)).map_or(false, |rec| valid_now(a, *i, *tp, rec)));
                     if !ok {
                         want = false;
                         why = if is.is_empty() { format!("topic-{tp}-has-no-trusted-issuer") } else { format!("topic-{tp}-unsatisfied") };
@@ -440,7 +507,7 @@ pub fn history(cfg: &Cfg, rep: &mut Report, h: u64, steps: usize, e2e: bool) {
 }
 
 pub fn run(cfg: &Cfg, rep: &mut Report) {
-    rep.rule = "Seeded histories on the real stack (claim-topics-and-issuers, identity registry storage, identity claims, identity verifier, claim issuer assembled from the library helpers): registry edits (topics with several, one and ZERO issuers), allow/remove key, nonce bump, revoke/un-revoke, time advance past valid_until, add_claim with genuine or single-defect claims (wrong topic / identity / issuer / nonce in the signed message, data or signature altered, truncated, other scheme, expired, foreign key) signed with real Ed25519 / P-256 / secp256k1 keys. After every step verify_identity for 4 accounts and (every 3rd step) is_claim_valid for every held claim are compared with the iff-oracle. Distinct case = (registry shape, verdict class, outcome) / (scheme, defect or invalidation kind, outcome).".into();
+    rep.rule = "Seeded histories on the real stack (claim-topics-and-issuers, identity registry storage, identity claims, identity verifier, claim issuer assembled from the library helpers): registry edits (topics with several, one and ZERO issuers; removed and re-added topics and issuers; 'currently trusted' is taken from the edit history and compared with the registry's own answer), a fourth, scripted issuer that confirms, fails or RETURNS false, allow/remove key, nonce bump, revoke/un-revoke, time advance past valid_until, add_claim with genuine or single-defect claims (wrong topic / identity / issuer / nonce in the signed message, data or signature altered, truncated, other scheme, expired, foreign key) signed with real Ed25519 / P-256 / secp256k1 keys. After every step verify_identity for 4 accounts and (every 3rd step) is_claim_valid for every held claim are compared with the iff-oracle. Distinct case = (registry shape, verdict class, outcome) / (scheme, defect or invalidation kind, outcome).".into();
     let nh = cfg.pick(16u64, 100);
     let steps = cfg.pick(120usize, 250);
     for k in 0..nh {
